@@ -104,6 +104,15 @@ func vfRunC11(ctx *vfCtx, c vfCaseC11) {
 			return nil
 		}
 	}
+	if h != nil && c.FailOpen {
+		// a lister that was handed out and then fails must still be closed (seed C11-g)
+		h.listAtErr = func(p string) error {
+			if p == "/dir/sub/x" || p == "/dir/sub" {
+				return errVfIO
+			}
+			return nil
+		}
+	}
 	if h != nil && c.CloseErr {
 		h.closeErr = errors.New("vf: close reports a late write error")
 		ctx.Class("close-returns-error")
